@@ -14,10 +14,8 @@ Proof. reflexivity. Qed.
 Lemma f32_cip_cases : FORMAT_32BIT = 2 \/ FORMAT_32BIT = 3.
 Proof. now left. Qed.
 
-Lemma guard_is_port l : existsb (seg_guard FORMAT_32BIT) l = existsb port_ge15 l.
-Proof.
-  induction l as [|s l IH]; cbn [existsb]; [reflexivity|]. rewrite IH. reflexivity.
-Qed.
+Lemma no_guard l : existsb (seg_guard FORMAT_32BIT) l = false.
+Proof. induction l as [|s l IH]; cbn [existsb]; [reflexivity|]. exact IH. Qed.
 
 (* what EPATH.encode(length=True, pad_length) returns for a path body *)
 Definition counted (pad_length : bool) (body : list Z) : list Z :=
@@ -42,24 +40,24 @@ Qed.
 
 (* ---------------------------------------------------------------- epath_ok *)
 Lemma epath_total segs ssegs pad_length :
-  denote_all segs = Some ssegs -> existsb port_ge15 segs = false ->
+  denote_all segs = Some ssegs ->
   exists body, encode_segs padded_PADDED_EPATH segs = Ok body /\ Nat.even (length body) = true
     /\ parse_padded_epath body = Some ssegs
     /\ epath_encode padded_PADDED_EPATH segs true pad_length
        = (if len body / 2 <=? 255 then Ok (counted pad_length body) else Err DataError)
     /\ (len body / 2 <= 255 -> parse_counted pad_length (counted pad_length body) = Some ssegs).
 Proof.
-  intros Hd Hg. rewrite <- guard_is_port in Hg.
-  exact (epath_counted_ok FORMAT_32BIT f32_cip_cases segs ssegs pad_length Hd Hg).
+  intros Hd.
+  exact (epath_counted_ok FORMAT_32BIT f32_cip_cases segs ssegs pad_length Hd (no_guard segs)).
 Qed.
 
 Lemma epath_emitted_ok segs ssegs pad_length out :
-  denote_all segs = Some ssegs -> existsb port_ge15 segs = false ->
+  denote_all segs = Some ssegs ->
   epath_encode padded_PADDED_EPATH segs true pad_length = Ok out ->
   exists w body, out = w :: (if pad_length then [0] else []) ++ body /\ len body = 2 * w
                  /\ parse_padded_epath body = Some ssegs /\ parse_counted pad_length out = Some ssegs.
 Proof.
-  intros Hd Hg Ho. destruct (epath_total segs ssegs pad_length Hd Hg) as (body & _ & Hev & Hp & He & Hc).
+  intros Hd Ho. destruct (epath_total segs ssegs pad_length Hd) as (body & _ & Hev & Hp & He & Hc).
   rewrite He in Ho. destruct (len body / 2 <=? 255) eqn:E; [|discriminate]. injection Ho as <-.
   exists (len body / 2), body. split; [reflexivity|]. split.
   - unfold len. apply Nat.even_spec in Hev as [k Hk]. rewrite Hk. lia.
@@ -105,10 +103,7 @@ Proof.
     replace (negb (x =? 0)) with true by lia. cbn [denote_all denote].
     change (assoc_text (txt "attribute_id") spec_ltypes) with (Some 4). unfold LOGICAL_LIMIT.
     now replace ((0 <=? x) && (x <? 4294967296)) with true by lia. }
-  assert (Hg : existsb port_ge15 segs = false).
-  { unfold segs, request_path_segs. destruct a as [x|]; cbn [option_map lval_truthy]; [|reflexivity].
-    destruct (negb (x =? 0)); reflexivity. }
-  destruct (epath_total segs _ false Hd Hg) as (body & He & _ & _ & Henc & Hcnt).
+  destruct (epath_total segs _ false Hd) as (body & He & _ & _ & Henc & Hcnt).
   assert (Hlen : len body <= 18).
   { change padded_PADDED_EPATH with true in He. revert He. unfold segs, request_path_segs.
     assert (Hone : forall t v r b, encode_segs true (Logical t v :: r) = Ok b ->
@@ -144,20 +139,13 @@ Proof.
 Qed.
 
 (* ---------------------------------------------------------------- route_ok *)
-Lemma route_segs pmax hops extra extra_r :
-  pmax <= 65535 -> forallb (wf_hop pmax) hops = true -> denote_all extra = Some extra_r ->
+Lemma route_segs hops extra extra_r :
+  forallb (wf_hop 65535) hops = true -> denote_all extra = Some extra_r ->
   denote_all (map hop_seg hops ++ extra) = Some (map hop_reading hops ++ extra_r).
-Proof. intros Hp Hh He. now rewrite denote_all_app, (denote_hops pmax hops Hp Hh), He. Qed.
-
-Lemma route_guard hops extra :
-  forallb (wf_hop 14) hops = true -> existsb port_ge15 extra = false ->
-  existsb port_ge15 (map hop_seg hops ++ extra) = false.
-Proof.
-  intros Hh He. rewrite existsb_app, He, orb_false_r. rewrite <- guard_is_port. now apply hops_guard.
-Qed.
+Proof. intros Hh He. now rewrite denote_all_app, (denote_hops 65535 hops ltac:(lia) Hh), He. Qed.
 
 Lemma route_total hops extra extra_r pad_length :
-  forallb (wf_hop 14) hops = true -> denote_all extra = Some extra_r -> existsb port_ge15 extra = false ->
+  forallb (wf_hop 65535) hops = true -> denote_all extra = Some extra_r ->
   exists body, Nat.even (length body) = true
     /\ parse_padded_epath body = Some (map hop_reading hops ++ extra_r)
     /\ epath_encode padded_PADDED_EPATH (map hop_seg hops ++ extra) true pad_length
@@ -165,30 +153,17 @@ Lemma route_total hops extra extra_r pad_length :
     /\ (len body / 2 <= 255 ->
         parse_counted pad_length (counted pad_length body) = Some (map hop_reading hops ++ extra_r)).
 Proof.
-  intros Hh He Hg.
-  destruct (epath_total _ _ pad_length (route_segs 14 hops extra extra_r ltac:(lia) Hh He) (route_guard hops extra Hh Hg))
-    as (body & _ & Hev & Hp & Henc & Hc).
+  intros Hh He.
+  destruct (epath_total _ _ pad_length (route_segs hops extra extra_r Hh He)) as (body & _ & Hev & Hp & Henc & Hc).
   exists body. repeat split; assumption.
 Qed.
 
 Lemma route_emitted_ok hops extra extra_r pad_length out :
-  forallb (wf_hop 14) hops = true -> denote_all extra = Some extra_r -> existsb port_ge15 extra = false ->
+  forallb (wf_hop 65535) hops = true -> denote_all extra = Some extra_r ->
   epath_encode padded_PADDED_EPATH (map hop_seg hops ++ extra) true pad_length = Ok out ->
   parse_counted pad_length out = Some (map hop_reading hops ++ extra_r).
 Proof.
-  intros Hh He Hg Ho.
-  destruct (epath_emitted_ok _ _ pad_length out (route_segs 14 hops extra extra_r ltac:(lia) Hh He)
-              (route_guard hops extra Hh Hg) Ho) as (w & body & _ & _ & _ & Hc).
+  intros Hh He Ho.
+  destruct (epath_emitted_ok _ _ pad_length out (route_segs hops extra extra_r Hh He) Ho) as (w & body & _ & _ & _ & Hc).
   exact Hc.
 Qed.
-
-(* ---------------------------------------------------------------- the refutation witness *)
-(* port 32, slot 0: the bytes 20 00 are a logical segment (class 0), not port 32 *)
-Definition bad_hop : hop := {| hop_port := inl 32; hop_to := HSlot 0 |}.
-
-Lemma bad_hop_facts :
-  wf_hop 65535 bad_hop = true
-  /\ denote_all [hop_seg bad_hop] = Some [SPort 32 [0]]
-  /\ epath_encode padded_PADDED_EPATH [hop_seg bad_hop] true false = Ok [1; 32; 0]
-  /\ parse_counted false [1; 32; 0] = Some [SLogical 0 0].
-Proof. vm_compute. repeat split. Qed.
